@@ -62,9 +62,9 @@ def base_config(start="2018-12-01T12:00:00", step: int = 60, n_steps: int = 3, o
     d["time"] = {"start_timestamp": iso(t0), "stop_timestamp": iso(t0 + timedelta(seconds=step * n_steps)),
                  "physics_step_sec": step, "output_step_sec": out_step or step}
     eng = d["engines"][0]
-    eng["decision"] = {"name": decision, "parameters": {}}
+    eng["decision"] = {"name": decision}
     if decision == "RandomDecision":
-        eng["decision"]["parameters"] = {"seed": seed or 0}
+        eng["decision"]["seed"] = seed or 0
     eng["targets"] = eng["targets"][:n_targets] + list(extra_targets or [])
     eng["sensors"] = eng["sensors"][:n_sensors]
     d["engines"] = [eng]
